@@ -153,8 +153,27 @@ func (t Token) ToMinCoin(coin sdk.DecCoin) (newCoin sdk.Coin, err error) {
 	return sdk.NewCoin(t.MinUnit, amount.TruncateInt()), nil
 }
 
-// Validate checks if the given token is valid
+// Validate checks if the given token is valid at issuance
 func (t Token) Validate() error {
+	if err := t.ValidateStored(); err != nil {
+		return err
+	}
+	if t.MaxSupply < t.InitialSupply {
+		return errorsmod.Wrapf(
+			tokentypes.ErrInvalidMaxSupply,
+			"invalid token max supply %d, only accepts value [%d, %d]",
+			t.MaxSupply,
+			t.InitialSupply,
+			uint64(tokentypes.MaximumMaxSupply),
+		)
+	}
+	return nil
+}
+
+// ValidateStored checks a token record as it can exist in state (and in an exported
+// genesis): unlike at issuance, the max supply may since have been lowered below the
+// initial supply by EditToken, once enough of the token had been burned
+func (t Token) ValidateStored() error {
 	if len(t.Owner) > 0 {
 		if _, err := sdk.AccAddressFromBech32(t.Owner); err != nil {
 			return errorsmod.Wrapf(sdkerrors.ErrInvalidAddress, "invalid owner address (%s)", err)
@@ -171,15 +190,6 @@ func (t Token) Validate() error {
 	}
 	if err := tokentypes.ValidateInitialSupply(t.InitialSupply); err != nil {
 		return err
-	}
-	if t.MaxSupply < t.InitialSupply {
-		return errorsmod.Wrapf(
-			tokentypes.ErrInvalidMaxSupply,
-			"invalid token max supply %d, only accepts value [%d, %d]",
-			t.MaxSupply,
-			t.InitialSupply,
-			uint64(tokentypes.MaximumMaxSupply),
-		)
 	}
 	return tokentypes.ValidateScale(t.Scale)
 }
